@@ -44,6 +44,17 @@ Definition Qgtb (a b : Q) : bool := Qltb b a.
 Definition Qgeb (a b : Q) : bool := Qleb b a.
 Definition qz (z : Z) : Q := inject_Z z.
 
+(* four vertices (12 entries, row-major) lie in one plane: np.linalg.matrix_rank(v[1:] - v[0]) < 3, in exact
+   arithmetic the determinant of the three edge vectors is zero *)
+Definition det3 (a b c d e f g h i : Q) : Q :=
+  (a * (e * i - f * h) - b * (d * i - f * g) + c * (d * h - e * g))%Q.
+Definition coplanar4 (vals : list Q) : bool :=
+  match vals with
+  | [x0; y0; z0; x1; y1; z1; x2; y2; z2; x3; y3; z3] =>
+      Qeq_bool (det3 (x1 - x0) (y1 - y0) (z1 - z0) (x2 - x0) (y2 - y0) (z2 - z0) (x3 - x0) (y3 - y0) (z3 - z0))%Q 0
+  | _ => false
+  end.
+
 (* ---- keyword configuration of check_format_input_vector, as written at a call site ---- *)
 Record vcfg := mkVcfg {
   v_dims : list Z;             (* dims=(1,2) / range(1,20) *)
